@@ -67,7 +67,7 @@ def guess_near(rng, v, rel):
     return v * (1 + rel * complex(rng.uniform(-1, 1), rng.uniform(-1, 1)))
 
 
-def build(rng, kind, typ, nf, form, ptol=None, etol=None, limit=None, bad=False):
+def build(rng, kind, typ, nf, form, ptol=None, etol=None, limit=None, bad=False, merr=False):
     n = 1 if kind in ('extra1', 'repeat') else 2
     if typ in ('T16', 'U16'):
         return None
@@ -80,6 +80,14 @@ def build(rng, kind, typ, nf, form, ptol=None, etol=None, limit=None, bad=False)
         g = complex(rng.uniform(-0.6, 0.6), rng.uniform(-0.6, 0.6))
         u = sc.unknown(guess_near(rng, g, 0.3 if not bad else 3.0), g)
         sc.std1(1, u, g)
+    elif kind == 'extra2':
+        # two-port short-open-load-through, known; one more reflect of unknown value seen on both ports (every type, also the
+        # 12-/14-term models with one linear system per column)
+        sc.solt()
+        g = complex(rng.uniform(-0.6, 0.6), rng.uniform(-0.6, 0.6))
+        u = sc.unknown(guess_near(rng, g, 0.2), g)
+        sc.std1(1, u, g)
+        sc.std1(2, u, g)
     elif kind == 'trl':
         R = -0.95 * cmath.exp(1j * rng.uniform(-0.2, 0.2))
         th = math.radians(rng.uniform(40, 140))
@@ -123,6 +131,10 @@ def build(rng, kind, typ, nf, form, ptol=None, etol=None, limit=None, bad=False)
             g = -1.0 + complex(rng.gauss(0, sigma), rng.gauss(0, sigma)) * 0.7
             hc = sc.correlated(calsim.SHORT, sigma, g)
             sc.std1(1, hc, g)
+    if merr:
+        # the measurement-error model on (noise floor and a signal-proportional part): exact data must still be solved to the same values
+        sc.lines.append('cal new_set_m_error %d 1 N S %s T %s' % (sc.n, vlib.d2h(1e-6), vlib.d2h(1e-3)))
+    sc.merr = merr
     if ptol is not None:
         sc.lines.append('cal new_set_p_tolerance %d %s' % (sc.n, vlib.d2h(ptol)))
     if etol is not None:
@@ -174,16 +186,18 @@ def run(chk):
     reps = (1 if quick else 10) * (3 if broken else 1)
     scs = []
     for _ in range(reps):
-        for kind in ('extra1', 'trl', 'trla', 'solr', 'repeat'):
+        for kind in ('extra1', 'extra2', 'trl', 'trla', 'solr', 'repeat'):
             for typ in calsim.TYPES:
                 # two-port self-calibration recipes (TRL, unknown through) are posed for the 8- and 10-term models; the 12-/14-term
                 # models with their per-column systems are not determined by them
                 if kind in ('trl', 'trla', 'solr') and typ in ('UE14', 'E12'):
                     continue
                 for form in (('m',) if quick else ('m', 'ab')):
-                    sc = build(rng, kind, typ, rng.randint(1, 2), form)
-                    if sc:
-                        scs.append(sc)
+                    # the analytic TRL path is not taken with the error model on, and repeatability already weights its equations
+                    for merr in ((False, True) if kind in ('extra1', 'extra2', 'solr') else (False,)):
+                        sc = build(rng, kind, typ, rng.randint(1, 2), form, merr=merr)
+                        if sc:
+                            scs.append(sc)
     alll = [l for s in scs for l in s.lines]
     out, rc, err = vlib.run_lines(exe, alll, timeout=1500)
     if rc != 0 or len(out) != len(alll):
@@ -201,7 +215,7 @@ def run(chk):
         o = out[pos:pos + len(s.lines)]
         pos += len(s.lines)
         chk.evaluations += 1
-        tag = '%s %s %dx%d %s nf=%d' % (s.kind, s.typ, s.rows, s.cols, s.form, s.nf)
+        tag = '%s %s %dx%d %s nf=%d%s' % (s.kind, s.typ, s.rows, s.cols, s.form, s.nf, ' with the measurement-error model' if getattr(s, 'merr', False) else '')
         bad = [(l, x) for l, x in zip(s.lines[:s.i_solve], o) if not x.startswith('ok')]
         if bad:
             chk.violation('setup', '%s: a step failed: `%s` -> %s' % (tag, bad[0][0][:90], bad[0][1][:100]), s.lines[:s.lines.index(bad[0][0]) + 1])
@@ -221,7 +235,7 @@ def run(chk):
             chk.violation('leak', '%s: allocations remain: %s' % (tag, o[-1]), s.lines)
             continue
         chk.count('recovered_' + s.kind)
-        chk.distinct.add((s.kind, s.typ, s.form, s.nf, pos))
+        chk.distinct.add((s.kind, s.typ, s.form, s.nf, getattr(s, 'merr', False), pos))
     chk.extra['worst_error'] = {k: float('%.3e' % v) for k, v in worst.items()}
     tolerances_and_limits(chk, exe, rng, broken, 2 if quick else 12)
     resolve_histories(chk, exe, rng, 2 if quick else 20)
